@@ -4,7 +4,7 @@
 # Model/SessionLoop.lean, Theorems/C11Session.lean, oracle c11session (harness/o_session*.go).
 SPEC = {
     "id": "C11",
-    "level": "proof",
+    "level": "other",
     "theorem_modules": ["GluonModel.Theorems.C11", "GluonModel.Theorems.C11Session"],
     "correspondences": [
         {"dialect": "parsebad", "quick_n": 6000, "thorough_n": 300000, "judge": "judge-c11-parse"},
